@@ -42,6 +42,15 @@ fn main() {
             });
             sweep::emit_case(&mut out, "replay", &c, true).expect("write");
         }
+        "exhaust" => {
+            let limit: usize = args.get(2).and_then(|s| s.parse().ok()).unwrap_or(100000);
+            let line = args[3..].join(" ");
+            let c = case::Case::dec(&line).unwrap_or_else(|| {
+                eprintln!("HARNESS-ERROR cannot parse case: {}", line);
+                std::process::exit(3)
+            });
+            sweep::exhaust(&mut out, "exhaustive", &c, limit).expect("write");
+        }
         "neighbors" => {
             let seed: u64 = args.get(2).and_then(|s| s.parse().ok()).unwrap_or(1);
             let count: usize = args.get(3).and_then(|s| s.parse().ok()).unwrap_or(200);
